@@ -338,7 +338,10 @@ func (g *schemaGenerator) generateDeclaredType(t *schemas.Type, scope nameScope)
 	g.output.declsBySchema[t] = &decl
 	g.output.declsByName[decl.Name] = &decl
 
+	g.output.inProgress = append(g.output.inProgress, &decl)
 	theType, err := g.generateType(t, scope)
+	g.output.inProgress = g.output.inProgress[:len(g.output.inProgress)-1]
+
 	if err != nil {
 		return nil, err
 	}
